@@ -225,7 +225,11 @@ class PrecipitateModel (PrecipitateBase):
             self.PSDXbeta.append(np.zeros((self.PBM[p].bins + 1, 1)))
 
             self.PSDXalpha[p][:,0], self.PSDXbeta[p][:,0] = self.therm.getInterfacialComposition(T, self.particleGibbs(self.PBM[p].PSDbounds, self.precipitateParameters[p].phase), precPhase=self.precipitateParameters[p].phase)
-            self.RdrivingForceIndex[p] = np.amax([np.argmax(self.PSDXalpha[p][:,0] != -1) - 1, 0])
+            #If the precipitate is unstable for every size class, the index is the end of the array (argmax of all False would give 0)
+            if np.any(self.PSDXalpha[p][:,0] != -1):
+                self.RdrivingForceIndex[p] = np.amax([np.argmax(self.PSDXalpha[p][:,0] != -1) - 1, 0])
+            else:
+                self.RdrivingForceIndex[p] = len(self.PSDXalpha[p][:,0]) - 1
             self.precipitateParameters[p].RdrivingForceLimit = self.PBM[p].PSDbounds[self.RdrivingForceIndex[p]]
 
             #Sets particle radii smaller than driving force limit to driving force limit composition
